@@ -1,6 +1,7 @@
 package main
 
 import (
+	"os"
 	"go/token"
 	"fmt"
 	"go/types"
@@ -15,6 +16,7 @@ import (
 
 var entryFactCache = map[*ssa.Function][]Lin{}
 var entryFactBusy = map[*ssa.Function]bool{}
+var dbgEntry = os.Getenv("DBGENTRY") != ""
 
 // staticCallSites returns the call sites of fn if every use of fn in the module is a plain
 // static call (not a method value, not go/defer); nil otherwise.
@@ -135,6 +137,24 @@ func (fi *funcInfo) entryFacts() []Lin {
 					continue
 				}
 				i, f := i, f
+				// an integer parameter that is at most the length of the slice field (o.advance(k) with
+				// o.buf = o.buf[k:] inside): the pair (slice, count) kept in a small struct
+				for i2, p2 := range fn.Params {
+					if _, _, isInt := isIntType(p2.Type()); !isInt {
+						continue
+					}
+					i2 := i2
+					cands = append(cands, cand{
+						callee: atom(fmt.Sprintf("len(%s.%s@entry)", base, f)).sub(fi.term(p2)),
+						caller: func(cfi *funcInfo, call *ssa.Call) (Lin, bool) {
+							l, ok := cfi.fieldLenAtCall(call, call.Call.Args[i], f)
+							if !ok {
+								return Lin{}, false
+							}
+							return l.sub(cfi.term(call.Call.Args[i2])), true
+						},
+					})
+				}
 				for _, k := range []int64{1, 2} {
 					k := k
 					cands = append(cands, cand{
@@ -158,6 +178,9 @@ func (fi *funcInfo) entryFacts() []Lin {
 			cfi := newFuncInfo(call.Parent())
 			goal, ok := cd.caller(cfi, call)
 			if !ok || !cfi.prove([]Lin{goal}, cfi.factsAt(call.Block(), call), 1) {
+				if dbgEntry {
+					fmt.Println("ENTRYFACT fails", fn.Name(), cd.callee, "at", prog.Fset.Position(call.Pos()), ok, goal)
+				}
 				holds = false
 				break
 			}
